@@ -236,7 +236,7 @@ Qed.
 
 Lemma BS_fin : sreq_scanning s -> BS x s'.
 Proof.
-  intros Hss. destruct HB as (HT & HC & [S1 S2 S3]).
+  intros Hss. destruct HB as (HT & HC & [S1 S2 S3 S4]).
   assert (Hsr : forall rq, Sreq s' rq -> Sreq s rq).
   { intros rq [H|[(k & H)|(t0 & z & Hz & H)]].
     - rewrite (fe_toscan _ _ _ _ _ E) in H. apply in_app_or in H. destruct H as [H|H]; [|now left].
@@ -258,6 +258,7 @@ Proof.
     + now rewrite (fe_bAt k Hnt).
     + destruct Hpe as [(rq & H1 & H2)|(rq & H1 & H2)]; [left; exists rq; rewrite (fe_toscan _ _ _ _ _ E); split; auto; apply in_or_app; now right|].
       right. exists rq. now rewrite (fe_inreq _ _ _ _ _ E).
+  - intros rq Hrq i d. rewrite fe_deps. apply (S4 rq (Hsr rq Hrq)).
 Qed.
 End FinEff.
 
